@@ -229,17 +229,13 @@ Lemma match_cells_sums : forall nrm tol new old lo hi,
        forall j, (j < length old)%nat -> ~ degenerate (nth j old (0, 0)) -> col_sum m j == 1).
 Proof.
   intros nrm tol new old lo hi Hn T1 T2. split; intros m H; unfold match_cells in H;
-    destruct (lt_outer nrm 0 new old) as [|isect] eqn:E; try discriminate;
-    assert (Hm : m = scale_entries (fun i => cell_vol nrm (nth i new (0, 0)))
-                                   (fun j => cell_vol nrm (nth j old (0, 0))) tol
-                                   (ltac:(first [exact Averaged | exact Integrated])) isect)
-      by congruence || idtac.
-  - clear Hm. assert (Hm : m = scale_entries (fun i => cell_vol nrm (nth i new (0, 0)))
+    destruct (lt_outer nrm 0 new old) as [|isect] eqn:E; try discriminate.
+  - assert (Hm : m = scale_entries (fun i => cell_vol nrm (nth i new (0, 0)))
                        (fun j => cell_vol nrm (nth j old (0, 0))) tol Averaged isect) by congruence.
     subst m. destruct (cells_partition _ _ _ _ _ _ T1 T2 E) as [R _].
     intros i Hi Hd. rewrite scale_avg_row. apply unit_quotient; [apply R; exact Hi|].
     apply cell_vol_nonzero; assumption.
-  - clear Hm. assert (Hm : m = scale_entries (fun i => cell_vol nrm (nth i new (0, 0)))
+  - assert (Hm : m = scale_entries (fun i => cell_vol nrm (nth i new (0, 0)))
                        (fun j => cell_vol nrm (nth j old (0, 0))) tol Integrated isect) by congruence.
     subst m. destruct (cells_partition _ _ _ _ _ _ T1 T2 E) as [_ [C _]].
     intros j Hj Hd. rewrite scale_int_col. apply unit_quotient; [apply C; exact Hj|].
@@ -256,4 +252,18 @@ Proof.
   inversion H; subst e. split; [reflexivity|].
   apply lt_outer_err in E. destruct E as [a [b [H1 [H2 H3]]]].
   apply seg_overlap_err in H3. exists a, b. tauto.
+Qed.
+
+Lemma history_transposes : forall nrm tol sg np ns ps fdi ops s0 s',
+    init_projections sg np ns ps fdi = inr s0 ->
+    last_state s0 (run nrm tol s0 ops) = inr s' -> transposes_ok s'.
+Proof.
+  intros. eapply run_transposes; [eapply init_transposes|]; eauto.
+Qed.
+
+Lemma transpose_sums : forall (p : nat -> bool) (a : mat) (k : nat),
+    row_sum (mtrans a) k == col_sum a k /\ col_sum (mtrans a) k == row_sum a k /\
+    rsum p (mtrans a) k == csum p a k.
+Proof.
+  intros. split; [apply row_sum_mtrans | split; [apply col_sum_mtrans | apply rsum_mtrans]].
 Qed.
